@@ -65,13 +65,13 @@ SUITES = [
      "runs": [(["record", "{tier}"], None), (["fmt", "{tier}"], None), (["exec"], belt_exec_cmds),
               (["steps"], steps_cmds), (["overlap"], overlap_cmds)]},
 ]
-# suites contributed by the other checks register themselves here when their driver exists
-for extra in ("suite_arith", "suite_bash", "suite_codec", "suite_ec", "suite_bign", "suite_bels"):
+# suites contributed by the other checks register themselves: every checks/suite_*.py with a SUITES list
+for _f in sorted(glob.glob(os.path.join(os.path.dirname(os.path.abspath(__file__)), "suite_*.py"))):
     try:
-        m = __import__(extra)
+        m = __import__(os.path.basename(_f)[:-3])
         SUITES += m.SUITES
-    except ImportError:
-        pass
+    except Exception as _e:      # a half-written suite of a builder must not break C07 / C19
+        vlib.log("[suites] %s not loaded: %s" % (os.path.basename(_f), _e))
 
 
 def run_suite(ctx, suite, variant, tier, fmt_quick=True):
